@@ -21,6 +21,8 @@ def res_absent(ex, info, name, t):
     if name in o:
         return t in o[name]
     sp = info.workers.get(name) or info.facilities.get(name) or {}
+    if sp.get("absence_after") is not None:
+        return t in sp["absence_after"]
     return t in sp.get("absence", ())
 
 
